@@ -648,6 +648,30 @@ class C18(PropBase):
             text, sp = text_of(f, "model")
             out.append(self.base_case(rng, "uuid-spelling", f, text, "ok", cfg=cfg, txns=txns, layout=layout, features=sorted(sp.features)))
 
+        # patterns that need JSON escapes when written out again
+        for i in range(30 * scale):
+            cfg, txns, layout = self.journal(rng)
+            p = rng.choice(['a"b', 'a\tb', 'a\\\\b', '\u0001x', 'x\u007fy', 'a\u2028b', 'q\\"', "it's", 'a/b', '<a&b>', '\u001f', 'a\rb\nc'.replace("\n", "\\n"),
+                            '\b'.replace("\b", "\u0008") + "z", '\f'.replace("\f", "\u000c"), "\U0001F600+", "\ufeffx"])
+            f = {"k": rng.choice(RE_KINDS), "re": p}
+            if rng.random() < 0.5:
+                f = {"k": "or", "fs": [f, self.filter_for(rng, txns, depth=1)]}
+            text, sp = text_of(f, rng.choice(["canon", "model"]), ws=0.3)
+            enc = rng.choice(["plain", "armor"])
+            out.append(self.base_case(rng, "pattern-escapes:" + enc, f, text if enc == "plain" else ARMOR + b64(text), "ok", plain=text,
+                                      cfg=cfg, txns=txns, layout=layout))
+        # nesting up to and beyond serde_json's recursion limit (128 levels of objects / arrays)
+        for i in range(16 * scale):
+            cfg, txns, layout = self.journal(rng)
+            depth = rng.choice([5, 20, 30, 40, 41, 42, 43, 61, 62, 63, 64, 65, 70])
+            f = c05.gen_leaf(rng, txns)
+            style = rng.choice(["not", "and", "mixed"])
+            for d in range(depth):
+                k = "not" if style == "not" or (style == "mixed" and d % 2) else "and"
+                f = {"k": "not", "f": f} if k == "not" else {"k": "and", "fs": [f]}
+            text, sp = text_of(f, "canon", ws=0.0)
+            out.append(self.base_case(rng, "deep-nesting:%s" % style, f, text, None, cfg=cfg, txns=txns, layout=layout))
+
         # ---- 3. malformed leaves: must be rejected
         def with_leaf(make_leaf, kind, n, expect="err"):
             for i in range(n):
